@@ -1121,6 +1121,8 @@ def getitem(ev, base, idx, node=None):
                 return m_
         return members[-1]
 
+    if isinstance(base, Obj) and getattr(base, "nt_fields", None) is not None and is_const(idx) and isinstance(const_of(idx), int):
+        return base.attrs[base.nt_fields[const_of(idx)]]
     if isinstance(base, Obj):
         m = base.cls.find_method("__getitem__")
         if m is not None:
